@@ -1155,3 +1155,25 @@ func LiteralField(v ssa.Value, name string) ssa.Value {
 	}
 	return nil
 }
+
+// ReceiverFieldPath: for a bound method value, the access path (in the frame that built the receiver) of the
+// value stored into the receiver field that the method-frame path `recv.field…` starts with; "" if unknown.
+func ReceiverFieldPath(bound *ssa.MakeClosure, method *ssa.Function, path string) string {
+	if bound == nil || len(bound.Bindings) != 1 || len(method.Params) == 0 {
+		return ""
+	}
+	rn := method.Params[0].Name()
+	if !strings.HasPrefix(path, rn+".") {
+		return ""
+	}
+	rest := path[len(rn)+1:]
+	field, tail, _ := strings.Cut(rest, ".")
+	v := LiteralField(bound.Bindings[0], field)
+	if v == nil {
+		return ""
+	}
+	if tail != "" {
+		return Path(v) + "." + tail
+	}
+	return Path(v)
+}
